@@ -60,7 +60,7 @@ theorem pos_contains_len (n : Nat) (h : (n : Int) ≤ I64.max) (r : Rng) (hr : r
 theorem alias_arms (n : Nat) (ih : Sound cfg sfh n) (al : Ty) (kt : Ty) (hal : al = .data ∨ al = .richData)
     (hkt : kt = .str ∨ kt = .variant [.str, .numeric])
     (b : Ty) (v : Val) (hw : al.w + b.w ≤ n + 1) (hkw : kt.w ≤ al.w)
-    (fb : b.Frag sfh) (wb : Ty.WF cfg b) (us : b.US) (ok : v.OK) (tv : Val.TyOK cfg v)
+    (fb : b.Frag sfh) (wb : Ty.WF cfg b) (us : b.US) (ok : v.OK) (tv : Val.TyOKS cfg sfh v)
     (h : (match b with
        | .array e' r' => Rng.pos.sub r' && (decide (r'.hi ≤ 0) || asg cfg sfh al e')
        | .tuple ts' g' => Rng.pos.sub (tupleSize ts' g') &&
@@ -244,7 +244,7 @@ theorem recv_rich (n : Nat) (ih : Sound cfg sfh n) (b : Ty) (v : Val)
     unfold inst at this; cases v <;> simp at this; simp [instRich]
   · have := ih (.object none) b v (by simp [Ty.w]; omega) ⟨frag_leaf sfh _ trivial, H.fb, wfl cfg _ trivial, H.wb, H.us, H.ok, H.tv⟩ h hi
     unfold inst at this; cases v <;> simp at this <;> simp [instRich]
-  · have := ih (.typ .any) b v (by simp [Ty.w]; omega) ⟨by simp [Ty.Frag, Ty.TF], H.fb, by simp [Ty.WF], H.wb, H.us, H.ok, H.tv⟩ h hi
+  · have := ih (.typ .any) b v (by simp [Ty.w]; omega) ⟨by simp [Ty.Frag, Ty.TA], H.fb, by simp [Ty.WF], H.wb, H.us, H.ok, H.tv⟩ h hi
     unfold inst at this; cases v <;> simp at this; simp [instRich]
   · have := ih .undef b v (by simp [Ty.w]; omega) ⟨frag_leaf sfh _ trivial, H.fb, wfl cfg _ trivial, H.wb, H.us, H.ok, H.tv⟩ h hi
     rw [inst_undef_eq cfg sfh this]; rfl
@@ -292,7 +292,7 @@ theorem alias_key_frag (al : Alias) : al.key.Frag sfh ∧ Ty.WF cfg al.key ∧ a
 /-- an array all of whose elements are instances of the alias is an instance of whatever accepts `Array[alias]` -/
 theorem toArr_sound (n : Nat) (ih : Sound cfg sfh n) (al : Alias) : ∀ (k : Nat) (a : Ty), a.w ≤ k → a.w + al.ty.w ≤ n + 1 →
     a.Frag sfh → Ty.WF cfg a → asgToArr cfg sfh al a = true →
-    ∀ vs, (∀ x ∈ vs, inst cfg sfh al.ty x = true) → (Val.array vs).OK → Val.TyOK cfg (.array vs) →
+    ∀ vs, (∀ x ∈ vs, inst cfg sfh al.ty x = true) → (Val.array vs).OK → Val.TyOKS cfg sfh (.array vs) →
     inst cfg sfh a (.array vs) = true := by
   intro k
   induction k with
@@ -379,7 +379,7 @@ theorem toHash_sound (n : Nat) (ih : Sound cfg sfh n) (al : Alias) : ∀ (k : Na
     a.Frag sfh → Ty.WF cfg a → asgToHash cfg sfh al a = true →
     ∀ es, (∀ e ∈ es, inst cfg sfh al.key e.1 = true ∧ inst cfg sfh al.ty e.2 = true) →
     (al = .data → ∀ e ∈ es, isStrKey e.1 = true) →
-    (Val.hash es).OK → Val.TyOK cfg (.hash es) →
+    (Val.hash es).OK → Val.TyOKS cfg sfh (.hash es) →
     inst cfg sfh a (.hash es) = true := by
   intro k
   induction k with
@@ -533,7 +533,7 @@ theorem sound_rich_r (n : Nat) (ih : Sound cfg sfh n) (a : Ty) (v : Val) (hw : a
     | obj p =>
       exact ih a (.object none) _ (by simp [Ty.w]; omega) ⟨H.fa, frag_leaf sfh _ trivial, H.wa, wfl cfg _ trivial, usl _ trivial, H.ok, H.tv⟩ hobj (by unfold inst; rfl)
     | typ u =>
-      exact ih a (.typ .any) _ (by simp [Ty.w]; omega) ⟨H.fa, by simp [Ty.Frag, Ty.TF], H.wa, by simp [Ty.WF], by simp [Ty.US], H.ok, H.tv⟩ htyp
+      exact ih a (.typ .any) _ (by simp [Ty.w]; omega) ⟨H.fa, by simp [Ty.Frag, Ty.TA], H.wa, by simp [Ty.WF], by simp [Ty.US], H.ok, H.tv⟩ htyp
         (by unfold inst; exact asg_any_l cfg sfh u)
     | array vs =>
       simp only [instRich, instRichL_iff] at hb
